@@ -69,13 +69,18 @@ type Event struct {
 	Tok token.Token
 
 	// EvReturn
-	Results []ast.Expr
+	Results  []ast.Expr
+	RetTruth map[int]bool // results (by index) whose boolean value is known on this path (compound conditions split by the engine)
 
 	// EvChanOp
 	Chan        ast.Expr
 	Send        bool
 	NonBlocking bool
 	InSelect    bool // the operation is the communication of a select arm
+
+	// EvGuard with GKind == GRange: the collection iterated (range statement, or the canonical
+	// index loop `for i := 0; i < len(x); i++`, which is presented as a range over x)
+	Over ast.Expr
 
 	// EvEnter/EvExit/EvSkip/EvFuncVal
 	Via     types.Object // combinator through which the closure is invoked
@@ -335,6 +340,9 @@ func (c *fnCtx) guardFor(b *cfg.Block, i int) alts {
 		base.GKind = GRange
 		base.Pos = b.Stmt.Pos()
 		base.Node = b.Stmt
+		if rs, ok := b.Stmt.(*ast.RangeStmt); ok {
+			base.Over = rs.X
+		}
 		return one(base)
 	}
 	if b.Succs[0].Kind == cfg.KindSelectCaseBody {
@@ -379,8 +387,105 @@ func (c *fnCtx) guardFor(b *cfg.Block, i int) alts {
 	base.GKind = GIf
 	if b.Kind == cfg.KindForLoop {
 		base.GKind = GFor
+		if fs, ok := b.Stmt.(*ast.ForStmt); ok {
+			if _, over := indexLoop(c.info, fs); over != nil {
+				// canonical index loop: the same thing as `for i := range x`
+				base.GKind = GRange
+				base.Pos = fs.Pos()
+				base.Node = fs
+				base.Over = over
+				return one(base)
+			}
+		}
 	}
 	return c.condAlts(last, val, base)
+}
+
+// indexLoop recognises `for i := 0; i < len(x); i++ { … }` whose body assigns neither i nor x and
+// returns the index variable and x. Such a loop visits every element of x in order, like range.
+func indexLoop(info *types.Info, fs *ast.ForStmt) (types.Object, ast.Expr) {
+	as, ok := fs.Init.(*ast.AssignStmt)
+	if !ok || as.Tok != token.DEFINE || len(as.Lhs) != 1 || len(as.Rhs) != 1 {
+		return nil, nil
+	}
+	id, ok := as.Lhs[0].(*ast.Ident)
+	if !ok {
+		return nil, nil
+	}
+	if bl, ok := ast.Unparen(as.Rhs[0]).(*ast.BasicLit); !ok || bl.Value != "0" {
+		return nil, nil
+	}
+	iv := info.Defs[id]
+	if iv == nil {
+		return nil, nil
+	}
+	cond, ok := ast.Unparen(fs.Cond).(*ast.BinaryExpr)
+	if !ok || cond.Op != token.LSS {
+		return nil, nil
+	}
+	if cid, ok := ast.Unparen(cond.X).(*ast.Ident); !ok || info.Uses[cid] != iv {
+		return nil, nil
+	}
+	call, ok := ast.Unparen(cond.Y).(*ast.CallExpr)
+	if !ok || len(call.Args) != 1 {
+		return nil, nil
+	}
+	if b, ok := calleeObj(info, call).(*types.Builtin); !ok || b.Name() != "len" {
+		return nil, nil
+	}
+	over := call.Args[0]
+	inc, ok := fs.Post.(*ast.IncDecStmt)
+	if !ok || inc.Tok != token.INC {
+		return nil, nil
+	}
+	if pid, ok := ast.Unparen(inc.X).(*ast.Ident); !ok || info.Uses[pid] != iv {
+		return nil, nil
+	}
+	// the body leaves i and x alone
+	var root func(x ast.Expr) types.Object
+	root = func(x ast.Expr) types.Object {
+		switch v := ast.Unparen(x).(type) {
+		case *ast.Ident:
+			return info.Uses[v]
+		case *ast.SelectorExpr:
+			return info.Uses[v.Sel]
+		case *ast.IndexExpr:
+			return root(v.X)
+		case *ast.StarExpr:
+			return root(v.X)
+		}
+		return nil
+	}
+	overRoot := root(over)
+	clean := true
+	ast.Inspect(fs.Body, func(n ast.Node) bool {
+		switch st := n.(type) {
+		case *ast.AssignStmt:
+			for _, l := range st.Lhs {
+				if lid, ok := ast.Unparen(l).(*ast.Ident); ok && (info.Uses[lid] == iv || (overRoot != nil && info.Uses[lid] == overRoot)) {
+					clean = false
+				}
+				if se, ok := ast.Unparen(l).(*ast.SelectorExpr); ok && overRoot != nil && info.Uses[se.Sel] == overRoot {
+					clean = false
+				}
+			}
+		case *ast.IncDecStmt:
+			if lid, ok := ast.Unparen(st.X).(*ast.Ident); ok && info.Uses[lid] == iv {
+				clean = false
+			}
+		case *ast.UnaryExpr:
+			if st.Op == token.AND {
+				if lid, ok := ast.Unparen(st.X).(*ast.Ident); ok && info.Uses[lid] == iv {
+					clean = false
+				}
+			}
+		}
+		return clean
+	})
+	if !clean {
+		return nil, nil
+	}
+	return iv, over
 }
 
 // condIsSplit: the block's last node is a plain branch condition whose evaluation (including
@@ -427,6 +532,33 @@ func (c *fnCtx) condAlts(x ast.Expr, want bool, base Event) alts {
 	g.Node = x
 	g.Loop = c.inLoop(x.Pos())
 	return seq(c.exprEvents(x), one(g))
+}
+
+// isCompoundBool: a boolean expression built from comparisons and logical operators (not a plain
+// identifier, constant or call).
+func (c *fnCtx) isCompoundBool(x ast.Expr) bool {
+	tv, ok := c.info.Types[x]
+	if !ok || tv.Value != nil {
+		return false
+	}
+	if b, ok := tv.Type.Underlying().(*types.Basic); !ok || b.Info()&types.IsBoolean == 0 {
+		return false
+	}
+	switch v := ast.Unparen(x).(type) {
+	case *ast.BinaryExpr:
+		switch v.Op {
+		case token.LAND, token.LOR, token.EQL, token.NEQ, token.LSS, token.GTR, token.LEQ, token.GEQ:
+			return true
+		}
+	case *ast.UnaryExpr:
+		if v.Op == token.NOT {
+			if _, isCall := ast.Unparen(v.X).(*ast.CallExpr); isCall {
+				return true
+			}
+			return c.isCompoundBool(v.X)
+		}
+	}
+	return false
 }
 
 func (c *fnCtx) chanOpsOfComm(comm ast.Stmt, nonBlocking bool) []Event {
@@ -572,6 +704,33 @@ func (c *fnCtx) nodeEvents(n ast.Node) alts {
 		}
 		return a
 	case *ast.ReturnStmt:
+		// Inside a looked-into helper, a boolean result computed by a compound condition
+		// (a && b, x != nil, !p(y) …) is split into its operand outcomes, exactly like the condition
+		// of an if: the helper's paths then say which operand decided, and the caller's test of the
+		// result is matched against the recorded truth value (Run.knownTruth).
+		if c.depth > 0 {
+			for k, r := range s.Results {
+				if !c.isCompoundBool(r) {
+					continue
+				}
+				var out alts
+				for _, want := range []bool{true, false} {
+					base := Event{Kind: EvGuard, GKind: GIf, Fn: c.fn, Depth: c.depth, Val: want, Stmt: s}
+					var a alts
+					for j, r2 := range s.Results {
+						if j != k {
+							a = seq(a, c.exprEvents(r2))
+						}
+					}
+					a = seq(a, c.condAlts(r, want, base))
+					e := ev(EvReturn, s)
+					e.Results = s.Results
+					e.RetTruth = map[int]bool{k: want}
+					out = append(out, seq(a, one(e))...)
+				}
+				return out
+			}
+		}
 		var a alts
 		for _, r := range s.Results {
 			a = seq(a, c.exprEvents(r))
